@@ -121,6 +121,18 @@ CHECKS = {
               "[1e-4, 100], labels with spaces: tolerance clauses evaluated by TLC."),
         design_ref="DESIGN.md section 4, C16",
         note="the exhaustive grid lies on the format's own precision grid; arbitrary floats are sampled; trusted: TLC 1.8, FP.class, TableIO.class, the local file system"),
+    "C14": dict(
+        engine="Resample",
+        technique="TLA+ tick model of the step rule (refine by ceil, decimate by floor, count, even rule, duration bound) checked exhaustively by TLC with the implementation in lock-step on exact and on integer-adjacent ticks; TLC trace validation of random (dt, target) pairs and of Fourier resampling of trigonometric polynomials",
+        category="model_checking",
+        text=("MC_Resample: d, t in 1..6 (quick) / 1..8 ticks, even in {T,F}, record growing from 4 to 16 / 22 samples, on four tick sizes "
+              "(2^-8 exact; 0.001, 0.003, 0.007 whose quotients land next to integers): StepRule, EvenRule, DurationRule on the model; for "
+              "every configuration the result of interp_array_to_approx_dt and interp_to_approx_dt (returned step, values) satisfies "
+              "StepNotAboveTarget, IntegerRatio, TickFactor (exact tick), OriginalsRetained, Subsequence, RangePreserved, "
+              "DurationWithinTwoSteps, EvenLength, ObjArrayAgree. Trace_Resample: random pairs incl. dt == target and non-commensurate; "
+              "resample_to_approx_dt on random trigonometric polynomials below the new Nyquist frequency recomputed by TLC (1e-9)."),
+        design_ref="DESIGN.md section 4, C14",
+        note=LEVEL_NOTE_N + "; Fourier exactness only where the returned grid spans the same period"),
 }
 
 NOT_YET = {}
